@@ -76,6 +76,7 @@ for ri, r in enumerate(rxs):
         if net != 0:
             viol[(ri, k)] = net
 balanced = not viol
+ReactionSystem(rxns, subs, dont_check={"balance"})   # an earlier construction that opted out must not influence the next one
 try:
     rsys = ReactionSystem(rxns, subs)
     accepted, msg = True, None
@@ -152,6 +153,7 @@ def ob_admission(shape, presence, lo, hi, twin=False):
             rx = Reaction(dict(r[0]), dict(r[1]), k, inact_reac=dict(r[2]), inact_prod=dict(r[3]), checks=())
             rx.string = lambda *a, **kw: "<rxn>"
             rxns.append(rx)
+        ReactionSystem(rxns, subs, dont_check={"balance"})  # history: an earlier construction that opted out of the balance check
         rsys = ReactionSystem(rxns, subs)
         B, ck = rsys.composition_balance_vectors()
         N = rsys.net_stoichs()
